@@ -38,7 +38,8 @@ CORE_EXPRS = [
     "STT_ARM_TFUNC", "STT_SPARC_REGISTER", "STT_GNU_IFUNC", "STB_MIPS_SPLIT_COMMON", "STB_GNU_UNIQUE",
     "\"\"", "\"a\"", "\"ab\"", "\"b\"", "\"a\\x00\"", "\"a\\x00b\"", "\"\\xff\"", "\"\\x7f\"", "\"A\"", "\"ab\"", "\"aa\"", "\"\\x80a\"",
     "[]", "[1]", "[1, 2]", "[2, 1]", "[\"a\", 1]", "[[]]", "[1, \"a\"]", "[0x1]", "[[1], [2]]", "[2]", "[1, 2]", "[[2], [1]]",
-    "[1, 2, 3]", "[\"\"]", "[[], []]", "[true]", "[1, 1]",
+    "[1, 2, 3]", "[\"\"]", "[[], []]", "[true]", "[1, 1]", "[1, 2, 3, 4]", "[1, 2, 3, 5]", "[4, 3, 2, 1]", "[1, 2, 3, 4, 5]",
+    "[1, 2, 3, 4]", "[0, 9, 9, 9, 9]", "[\"a\", \"b\", \"c\", \"d\"]", "[\"a\", \"b\", \"c\", \"e\"]",
     "0 0 aset", "0 1 aset", "1 3 aset", "0 1 aset 2 3 aset add", "0 3 aset", "1 3 aset", "0 1 aset 2 4 aset add", "5 9 aset",
 ]
 
@@ -76,8 +77,10 @@ def core_cmp(a, b):
             x, y = int(a["v"]), int(b["v"])
             return (x > y) - (x < y)
         if a["di"] == b["di"]:
-            x, y = int(a["v"]), int(b["v"])
-            return (x > y) - (x < y)
+            # named constants of one domain: equal iff the numbers are; which of two different ones is the
+            # smaller is not documented (machine-specific ELF domains order their generic and their own
+            # codes as two groups), only that the order is total and consistent
+            return 0 if int(a["v"]) == int(b["v"]) else "ne"
         return None
     if t == "s":
         x, y = bytes.fromhex(a["x"]), bytes.fromhex(b["x"])
@@ -89,8 +92,8 @@ def core_cmp(a, b):
             return None
         for x, y in zip(a["e"], b["e"]):
             c = core_cmp(x, y)
-            if c is None:
-                return None
+            if c is None or c == "ne":
+                return c
             if c:
                 return c
         return 0
@@ -157,7 +160,10 @@ def check_pool(ev, desc, pool, m, rnd, exclude_die_routes=True):
                 viol("== not reflexive", [i])
             # documented order of core values
             c = core_cmp(pool[i], pool[j])
-            if c is not None:
+            if c == "ne":
+                if eq[i][j]:
+                    viol("different constants of one domain compare equal", [i, j])
+            elif c is not None:
                 if (c == 0) != eq[i][j] or (c < 0) != lt[i][j]:
                     viol("documented order: expected %s" % ("==" if c == 0 else "<" if c < 0 else ">"), [i, j])
             if types[i] == "c" and types[j] == "c" and eq[i][j] and not (pool[i]["a"] and pool[j]["a"]):
@@ -231,6 +237,14 @@ def work(task):
         core = list(CORE_EXPRS) if idx == 0 else rnd.sample(CORE_EXPRS, min(n_core, len(CORE_EXPRS)))
         if fn and idx % 2 == 1:
             core = rnd.sample(CORE_EXPRS, 25)
+        if idx >= 1000:
+            # ELF symbol constants: every STT_/STB_/STV_ word of the vocabulary next to the type, binding and
+            # visibility constants *as a file of a particular machine yields them* (generic values held in
+            # the machine's own domain) and plain numbers
+            names = [w for w in drv.vocab("dw") if w.startswith(("STT_", "STB_", "STV_"))]
+            core = names + ["0", "1", "2", "4", "10", "13", "0xd", "[STT_FILE]", "[STT_FUNC]", "[13]"]
+            dwx = ["Dw symbol label", "Dw symbol binding", "Dw symbol visibility", "[Dw symbol (pos < 12) label]",
+                   "Dw symbol (pos < 8) [label]"]
         pq = build_pool_query(core + dwx, bool(fn))
         r = run_matrix(drv, pq, tok)
         if "pool" not in r:
@@ -347,6 +361,9 @@ def main(tier, seed):
             if os.path.exists(os.path.join("/repo/tests", fn)):
                 tasks.append((seed, k, fn, 45, 14))
                 k += 1
+    for j, fn in enumerate(["y.o", "y-mips.o", "float_const_value.o-armv7hl", "float_const_value.o-ppc64", "enum.o"]):
+        if os.path.exists(os.path.join("/repo/tests", fn)):
+            tasks.append((seed, 1000 + j, fn, 0, 0))
     ev = run_pool(work, tasks)
     known_findings(ev)
     import json
